@@ -195,8 +195,12 @@ def load(R):
                          "a-reference-refers-to-its-function")
     R.path_init.append(arg_path_init)
     R.contract(C + "encode_arg", prop="C11", types={"obj": TObj()}, returns=DOC,
-               ensures=["'type' in result", "('value' in result) == (obj is not None)", "len(result) == (1 if obj is None else 2)", "ARG1(result, obj, True)", "[effect] argwire(result, obj)"],
+               ensures=["'type' in result", "('value' in result) == (obj is not None)", "len(result) == (1 if obj is None else 2)", "ARG1(result, obj, True)", "[effect] argwire(result, obj)",
+                        # from the property ("the emitted document is plain JSON ... other language implementations read"): a number leaf is a JSON number,
+                        # i.e. finite -- NaN / Infinity have no JSON representation (json.dumps writes the bare tokens NaN / Infinity, which strict parsers reject)
+                        "implies(isinstance(obj, float), json_finite(obj))"],
                raises={"ValueError": []}, labels={"dict_literals_dynamic": True, "entry_axioms": ["CLASS_FACTS(obj)"]})
+    R.uf("json_finite", [TObj()], TBool)
     R.contract(C + "decode_arg", prop="C11", types={"state": TObj()}, returns=TObj(),
                ensures=["ARG1(state, result, False)", "[effect] argwire(state, result)"], raises=dict(MALFORMED, **{"Exception+": []}))
 
